@@ -34,6 +34,16 @@ its own ``__init__``: MultipartParseOptions, RequestOptions, ResponseOptions, ..
 c19_shared_handles) is an alias of shared state - no method of that class stores into it, directly or through a local alias (seeded
 s8-c19-2).  Anchors: the four multipart classes must still bind such a handle.
 
+Second preserving wave (k2-*): R1 reads the lock region in the stub OR in one helper the stub calls (a same-class method, or a module-level
+function handed `self`, read through RouterModel.view as if it were a method), spelled ``with <lock>:`` or ``<lock>.acquire()`` + try/finally
+``release()``; the stub may route without the lock exactly where a test has just found the finder slot no longer to hold the stub
+(double-checked locking).  RouterModel.writes / R6 follow `self` into module-level helpers (``_reset_tables(self)``); R6 also reads a table
+through a local bound once to it, pairwise tuple rebinding and ``self.t = <local bound once to a fresh list>``.  R4 reads ``params =
+_new_params()`` through a plain helper every return of which is a fresh empty dict.  R3 accepts an un-reviewed module-level display of
+immutable constants that no function writes (directly or through a local alias) and that is only read through copies / iteration /
+membership / subscripts (handing the object itself on is exit 2).  R8 evaluates a module-level selector ``_pick_executor(threadsafe)`` over
+the paths feasible for threadsafe=False and, with several coroutine functions, examines the one the factory returns for threadsafe=False.
+
 Declared anchors: ``CompiledRouter.find`` / ``__init__`` (lock = the attribute
 that receives ``threading.Lock()``; finder slot, stub, builder and tables are
 derived from ``find``'s call), the entry-point tables R2_ENTRIES / R2_FAMILIES,
@@ -638,27 +648,89 @@ class RouterModel:
 
 
     def writes(self, f: Func, _stack=()) -> Set[str]:
-        """self attributes written by f or (transitively) by the self-methods it calls"""
+        """self attributes written by f or (transitively) by the self-methods it calls and by the module-level helpers it hands
+        `self` to (see call_writes)"""
         if f.qual in self._w:
             return self._w[f.qual]
         if f.qual in _stack:
             return set()
         out = {a for a, _n in self_writes(f)}
-        for g in f.nested.values():
-            out |= self.writes(g, _stack + (f.qual,))
-        for c in walk_self(f.node):
-            if isinstance(c, ast.Call) and _self_attr(c.func):
-                m = self.p.lookup_method(ROUTER, c.func.attr)
-                if m is not None:
-                    out |= self.writes(m, _stack + (f.qual,))
-        for g in f.nested.values():
+        for g in [f] + list(f.nested.values()):
+            if g is not f:
+                out |= self.writes(g, _stack + (f.qual,))
             for c in walk_self(g.node):
-                if isinstance(c, ast.Call) and _self_attr(c.func):
-                    m = self.p.lookup_method(ROUTER, c.func.attr)
-                    if m is not None:
-                        out |= self.writes(m, _stack + (f.qual,))
+                if isinstance(c, ast.Call):
+                    out |= self.call_writes(g, c, _stack + (f.qual,))
         if not _stack:
             self._w[f.qual] = out
+        return out
+
+    def call_writes(self, f: Func, c: ast.Call, _stack=()) -> Set[str]:
+        """router attributes written by the call `c` made in the method f: ``self.<m>(..)`` -> writes(m); ``helper(self, ..)`` /
+        ``helper(router=self)`` of a module-level function -> what the helper stores through the parameter that receives `self`"""
+        if _self_attr(c.func):
+            m = self.p.lookup_method(ROUTER, c.func.attr)
+            return set(self.writes(m, _stack)) if m is not None else set()
+        h, q = self.handed_self(f, c)
+        if h is None:
+            return set()
+        return self.param_writes(h, q, _stack)
+
+    def handed_self(self, f: Func, c: ast.Call, recv: str = 'self'):
+        """(module-level function, parameter) when the call `c` in f passes the receiver `recv` itself to a resolved module-level
+        function; (None, None) otherwise"""
+        if not isinstance(c.func, (ast.Name, ast.Attribute)) or _self_attr(c.func):
+            return None, None
+        passed = [a for a in c.args if isinstance(a, ast.Name) and a.id == recv] + [k.value for k in c.keywords if isinstance(k.value, ast.Name) and k.value.id == recv]
+        if not passed:
+            return None, None
+        h = self.p.callee(f, c)
+        if not isinstance(h, Func) or h.cls is not None or h.parent is not None:
+            return None, None
+        try:
+            binding = _bind_params(h, c)
+        except UnknownIdiom:
+            return None, None
+        qs = [n for n, e in binding.items() if isinstance(e, ast.Name) and e.id == recv]
+        if len(qs) != 1 or _rebinds(h, qs[0]):
+            return None, None
+        return h, qs[0]
+
+    def view(self, h: Func, q: str) -> Func:
+        """the module-level function h, handed the router as its parameter q, seen as if it were a method: a copy of its definition in which
+        q is spelled `self` (line numbers kept), owned by the router class - so that the same-class reading applies to it unchanged"""
+        import copy
+        key = (h.qual, q)
+        views = self.__dict__.setdefault('_views', {})
+        if key not in views:
+            if any(isinstance(x, ast.Name) and x.id == 'self' for x in ast.walk(h.node)) or 'self' in h.params():
+                raise UnknownIdiom('%s: already uses the name self' % h.qual)
+            node = copy.deepcopy(h.node)
+            for x in ast.walk(node):
+                if isinstance(x, ast.Name) and x.id == q:
+                    x.id = 'self'
+                elif isinstance(x, ast.arg) and x.arg == q:
+                    x.arg = 'self'
+            views[key] = Func(node, h.qual, h.module, cls=self.cls, parent=None)
+        return views[key]
+
+    def param_writes(self, h: Func, q: str, _stack=()) -> Set[str]:
+        """router attributes the module-level function h stores through its parameter q (which receives the router)"""
+        key = '%s(%s)' % (h.qual, q)
+        if key in _stack or len(_stack) > 8:
+            return set()
+        out = {first for root, first, _n in _mutations(walk_self(h.node)) if root == q and first is not None}
+        for c in walk_self(h.node):
+            if not isinstance(c, ast.Call):
+                continue
+            if isinstance(c.func, ast.Attribute) and isinstance(c.func.value, ast.Name) and c.func.value.id == q:
+                m = self.p.lookup_method(ROUTER, c.func.attr)
+                if m is not None:
+                    out |= self.writes(m, _stack + (key,))
+            else:
+                h2, q2 = self.handed_self(h, c, recv=q)
+                if h2 is not None:
+                    out |= self.param_writes(h2, q2, _stack + (key,))
         return out
 
 
@@ -671,6 +743,49 @@ def _stmt_of(f: Func, node):
     return None
 
 
+def _lock_regions(rm: 'RouterModel', fn: Func, cfg):
+    """(gates, region, any_with) of the function fn: `gates` = the CFG nodes at which the router's compile lock is taken, `region` = the nodes
+    that run while it is held, `any_with` = the nodes inside any ``with`` block.  Two spellings are read: ``with <lock>:`` (region = the
+    block) and ``<lock>.acquire()`` immediately followed by ``try: ... finally: <lock>.release()`` (region = the whole try statement bar the
+    release; plain blocking acquire only).  An acquire in any other position is an unknown idiom."""
+    gates: List[int] = []
+    region: Set[int] = set()
+    any_with: Set[int] = set()
+    for n in cfg.live_nodes():
+        if n.kind == 'with':
+            any_with |= nodes_within(cfg, n.stmt.body)
+            if any(rm.is_lock_expr(fn, i.context_expr) for i in n.stmt.items):
+                gates.append(n.id)
+                region |= nodes_within(cfg, n.stmt.body)
+
+    def lock_call(st, name):
+        return isinstance(st, ast.Expr) and isinstance(st.value, ast.Call) and isinstance(st.value.func, ast.Attribute) \
+            and st.value.func.attr == name and rm.is_lock_expr(fn, st.value.func.value)
+
+    for blk in ast.walk(fn.node):
+        for field in ('body', 'orelse', 'finalbody'):
+            stmts = getattr(blk, field, None)
+            if not isinstance(stmts, list):
+                continue
+            for i, st in enumerate(stmts):
+                if not lock_call(st, 'acquire'):
+                    continue
+                nxt = stmts[i + 1] if i + 1 < len(stmts) else None
+                if st.value.args or st.value.keywords or not isinstance(nxt, ast.Try) or not any(lock_call(x, 'release') for x in nxt.finalbody):
+                    raise UnknownIdiom('%s: %s is not directly followed by try/finally releasing the lock' % (fn.qual, short(st)))
+                ids = cfg.nodes_for(st)
+                if not ids:
+                    continue
+                gates += list(ids)
+                region |= nodes_within(cfg, nxt.body) | nodes_within(cfg, nxt.orelse) | nodes_within(cfg, [h for h in nxt.handlers])
+    for x in walk_self(fn.node):
+        if isinstance(x, ast.Call) and isinstance(x.func, ast.Attribute) and x.func.attr == 'acquire' and rm.is_lock_expr(fn, x.func.value):
+            st = _stmt_of(fn, x)
+            if not lock_call(st, 'acquire'):
+                raise UnknownIdiom('%s: the result of %s is used (non-blocking / timed acquisition is not understood)' % (fn.qual, short(x)))
+    return gates, region, any_with
+
+
 def r1_compile_lock(run):
     p = run.project
     rm = RouterModel(p)
@@ -679,14 +794,31 @@ def r1_compile_lock(run):
     cfg = cfg_of(f, p)
     run.use_cfg(cfg)
     run.use_cfg(cfg_of(rm.find, p))
-    withs = [n for n in cfg.live_nodes() if n.kind == 'with' and any(rm.is_lock_expr(f, i.context_expr) for i in n.stmt.items)]
-    any_with: Set[int] = set()
-    for n in cfg.live_nodes():
-        if n.kind == 'with':
-            any_with |= nodes_within(cfg, n.stmt.body)
-    region: Set[int] = set()
-    for w in withs:
-        region |= nodes_within(cfg, w.stmt.body)
+    # the function that takes the lock: the stub itself, or ONE same-class helper the stub calls (`self._ensure_compiled()`)
+    lf, lcfg, via, via_call = f, cfg, None, None
+    if not _lock_regions(rm, f, cfg)[0]:
+        cands = []
+        for n in cfg.live_nodes():
+            for c in n.calls():
+                h = None
+                if _self_attr(c.func):
+                    h = p.lookup_method(ROUTER, c.func.attr)
+                    if h is not None and (h is f or h.is_property()):
+                        h = None
+                else:
+                    h0, q0 = rm.handed_self(f, c)
+                    if h0 is not None and any(isinstance(x, (ast.With, ast.Try)) for x in walk_self(h0.node)):
+                        h = rm.view(h0, q0)     # a module-level function handed the router, read as a method
+                if h is not None and _lock_regions(rm, h, cfg_of(h, p))[0]:
+                    cands.append((n, c, h))
+        if len(cands) > 1:
+            raise UnknownIdiom('%s: the compile lock is taken by several helpers (%s)' % (f.qual, ', '.join(sorted({h.name for _n, _c, h in cands}))))
+        if cands:
+            via, via_call, lf = cands[0]
+            lcfg = cfg_of(lf, p)
+            run.use_cfg(lcfg)
+            run.extra['c19_router']['lock_taken_in'] = lf.qual
+    gates, region, any_with = _lock_regions(rm, lf, lcfg)
     # find() itself writes nothing
     for a, n in self_writes(rm.find):
         run.fail('find() writes shared router state outside any lock', rm.find, n, runtime_witness='two concurrent find() calls interfere')
@@ -716,15 +848,22 @@ def r1_compile_lock(run):
     # every write reachable from the stub is inside `with self.<lock>`
     n_w = 0
     lock_writes: List = []
-    for n in cfg.live_nodes():
+    scopes = [(lf, lcfg, region, any_with)]
+    if lf is not f:
+        # the stub's own writes: only the call of the helper that takes the lock (its writes are examined inside the helper)
+        scopes.append((f, cfg, set(), set()))
+    for wf, wcfg, wregion, wany in scopes:
+      for n in wcfg.live_nodes():
         written: Set[str] = set()
         construct = None
         for x in n.own():
             for sub in walk_self(x):
-                if isinstance(sub, ast.Call) and _self_attr(sub.func):
-                    m = p.lookup_method(ROUTER, sub.func.attr)
-                    if m is not None and rm.writes(m):
-                        written |= rm.writes(m)
+                if isinstance(sub, ast.Call):
+                    if wf is f and lf is not f and sub is via_call:
+                        continue
+                    cw = rm.call_writes(wf, sub)
+                    if cw:
+                        written |= cw
                         construct = construct or sub
         if n.kind == 'stmt':
             fake = type('F', (), {'node': ast.Module(body=[n.ast], type_ignores=[])})
@@ -736,12 +875,12 @@ def r1_compile_lock(run):
         if rm.lock in written:
             # the lock that serialises the first compile is itself (re)bound on the request path
             lock_writes.append(n)
-            if n.id in (any_with - region):
+            if n.id in (wany - wregion):
                 raise UnknownIdiom('%s: self.%s is bound inside another `with` block (%s); whether that block serialises the creation of the '
-                                   'compile lock is not understood' % (f.qual, rm.lock, n.text()))
+                                   'compile lock is not understood' % (wf.qual, rm.lock, n.text()))
             run.fail('lazy compile: the lock self.%s that serialises the first compilation is created by the constructor, before the router is shared; '
                      'here it is created/rebound on the request path (check-then-act on shared state: every racing first request may install and '
-                     'take ITS OWN lock)' % rm.lock, f, construct if construct is not None else n.text(), where='%s:%s' % (f.file, n.lineno),
+                     'take ITS OWN lock)' % rm.lock, wf, construct if construct is not None else n.text(), where='%s:%s' % (wf.file, n.lineno),
                      witness=['%s: %s' % (m_.loc(s_), short(s_)) for m_, s_ in rm.lock_created_late] or None,
                      runtime_witness='two first-ever requests both read self.%s as None, each creates a Lock of its own, both pass the re-check '
                                      'and run the table builder concurrently: one renders the other\'s half-built tree -> 500 / 404 for a valid route' % rm.lock)
@@ -749,8 +888,8 @@ def r1_compile_lock(run):
             if not written:
                 continue
         n_w += 1
-        run.check(n.id in region, 'lazy compile: the write of %s happens inside `with self.%s`' % (', '.join(sorted(written)), rm.lock), f,
-                  construct if construct is not None else n.text(), where='%s:%s' % (f.file, n.lineno),
+        run.check(n.id in wregion, 'lazy compile: the write of %s happens inside `with self.%s`' % (', '.join(sorted(written)), rm.lock), wf,
+                  construct if construct is not None else n.text(), where='%s:%s' % (wf.file, n.lineno),
                   runtime_witness='two first requests compile concurrently: one resets the tables while the other one (or a third request) routes with them '
                                   '-> wrong route / IndexError / 404')
     if n_w == 0:
@@ -764,9 +903,9 @@ def r1_compile_lock(run):
         run.ok('lazy compile: the lock self.%s is created by the constructor and never rebound on the lazy-compile path' % rm.lock,
                rm.init.loc(), 'self.%s = Lock() in __init__ only' % rm.lock)
     # publication of the finder: inside the lock, re-checked, after the build
-    pubs = [n for n in cfg.live_nodes() if n.kind == 'stmt' and isinstance(n.ast, ast.Assign) and any(_self_attr(t, rm.slot) for t in n.ast.targets)]
+    pubs = [n for n in lcfg.live_nodes() if n.kind == 'stmt' and isinstance(n.ast, ast.Assign) and any(_self_attr(t, rm.slot) for t in n.ast.targets)]
     if not pubs:
-        raise AnchorError('%s never assigns self.%s' % (f.qual, rm.slot))
+        raise AnchorError('%s never assigns self.%s' % (lf.qual, rm.slot))
 
     def still_stub(e):
         if isinstance(e, ast.Compare) and len(e.ops) == 1:
@@ -789,39 +928,39 @@ def r1_compile_lock(run):
         class Loc(ast.NodeTransformer):
             def visit_Name(self, node):
                 if isinstance(node.ctx, ast.Load):
-                    d = _single_def(f, node.id)
+                    d = _single_def(lf, node.id)
                     if d is not None:
-                        ids = cfg.nodes_for(d)
-                        if ids and all(i in region for i in ids) and all(flow.dominated_by_nodes(cfg, t.id, [i]) for i in ids):
+                        ids = lcfg.nodes_for(d)
+                        if ids and all(i in region for i in ids) and all(flow.dominated_by_nodes(lcfg, t.id, [i]) for i in ids):
                             return copy.deepcopy(d.value)
                 return node
 
         return rm.inline_pure(Loc().visit(e))
 
-    tests_in_region = [(t, recheck_expr(t)) for t in cfg.live_nodes() if t.kind == 'test' and t.id in region]
+    tests_in_region = [(t, recheck_expr(t)) for t in lcfg.live_nodes() if t.kind == 'test' and t.id in region]
     for s in pubs:
         ok = False
         for t, texpr in tests_in_region:
             for lab, truth in (('T', True), ('F', False)):
                 for pol in (True, False):
                     r = implied(texpr, truth, lambda e, pol=pol: still_stub(e) is pol)
-                    if r is not None and (r if pol else not r) is True and any(flow.dominated_by_edge(cfg, s.id, e) for e in flow.edges_out(cfg, t.id, lab)):
+                    if r is not None and (r if pol else not r) is True and any(flow.dominated_by_edge(lcfg, s.id, e) for e in flow.edges_out(lcfg, t.id, lab)):
                         ok = True
-        run.check(ok, 'lazy compile: under the lock it is re-checked that the finder slot still holds the stub (only one compilation)', f, s.ast,
+        run.check(ok, 'lazy compile: under the lock it is re-checked that the finder slot still holds the stub (only one compilation)', lf, s.ast,
                   runtime_witness='a second first-request recompiles: it resets the tables while compiled finders of other threads are using them')
         # RHS is the compile call (evaluated to completion before the store) or a local bound to it
         v = s.ast.value
         src = v
         if isinstance(v, ast.Name):
-            defs = [m for m in cfg.live_nodes() if m.kind == 'stmt' and isinstance(m.ast, ast.Assign) and any(isinstance(t, ast.Name) and t.id == v.id for t in m.ast.targets)]
-            if len(defs) == 1 and flow.dominated_by_nodes(cfg, s.id, [defs[0].id]):
+            defs = [m for m in lcfg.live_nodes() if m.kind == 'stmt' and isinstance(m.ast, ast.Assign) and any(isinstance(t, ast.Name) and t.id == v.id for t in m.ast.targets)]
+            if len(defs) == 1 and flow.dominated_by_nodes(lcfg, s.id, [defs[0].id]):
                 src = defs[0].ast.value
         builder = None
         if isinstance(src, ast.Call) and _self_attr(src.func):
             builder = p.lookup_method(ROUTER, src.func.attr)
         built = builder is not None and {t for _i, t in rm.tables} <= rm.writes(builder)
         run.check(built, 'lazy compile: the finder is published only after the call that (re)builds the tables %s has returned' % [t for _i, t in rm.tables],
-                  f, s.ast, runtime_witness='a concurrent request sees the new finder with empty/half-built tables -> IndexError or a wrong route')
+                  lf, s.ast, runtime_witness='a concurrent request sees the new finder with empty/half-built tables -> IndexError or a wrong route')
         if builder is not None:
             run.check(rm.slot not in rm.writes(builder), 'lazy compile: the builder itself never assigns the finder slot (tables before function pointer)',
                       builder, '%s writes %s' % (builder.name, rm.slot) if rm.slot in rm.writes(builder) else builder.name,
@@ -831,7 +970,19 @@ def r1_compile_lock(run):
     stub_sites = rm.sites(f)
     if not stub_sites:
         raise AnchorError('%s does not call the finder' % f.qual)
-    with_ids = [w.id for w in withs]
+    # the routing call of the stub runs after the lock was taken -- or on a path on which a test has just found the finder slot NOT to
+    # hold the stub any more (double-checked locking: the compiled finder is published after its tables, so whoever sees it may use it)
+    gate_ids = list(gates) if lf is f else [via.id]
+    published_edges = []
+    for t in cfg.live_nodes():
+        if t.kind != 'test':
+            continue
+        texpr = rm.inline_pure(t.ast)
+        for lab, truth in (('T', True), ('F', False)):
+            for pol in (True, False):
+                r = implied(texpr, truth, lambda e, pol=pol: still_stub(e) is pol)
+                if r is not None and (r if pol else not r) is False:
+                    published_edges += flow.edges_out(cfg, t.id, lab)
     for st in stub_sites:
         c = st.call
         st_ = _stmt_of(f, c)
@@ -840,7 +991,8 @@ def r1_compile_lock(run):
             raise UnknownIdiom('%s: cannot place %s in the control flow' % (f.qual, short(c)))
         if st.helper is not None:
             run.use_cfg(cfg_of(st.helper, p))
-        run.check(bool(with_ids) and all(flow.dominated_by_nodes(cfg, nid, with_ids) for nid in nids),
+        free = flow.reachable(cfg, [cfg.entry], avoid_nodes=gate_ids, avoid_edges=published_edges) if gate_ids else set(nids)
+        run.check(bool(gate_ids) and not any(nid in free for nid in nids),
                   'lazy compile: the routing call happens after the lock was taken (and released or the build finished)', f, c)
         bad = [(i, t) for (i, t) in rm.tables if not (i < len(st.args) and _self_attr(st.args[i], t))]
         run.check(not bad, 'lazy compile: the finder is called with the *current* tables (re-read from self), not with the stale ones received as arguments',
@@ -1283,6 +1435,151 @@ def _pure(p, f: Func, inventory: Set[str], memo_ok: Set[str]) -> Optional[str]:
     return None
 
 
+_IMMUTABLE_ELEMENT = (str, bytes, int, float, bool, type(None), tuple, frozenset)
+_COPYING_CALLS = ('list', 'tuple', 'set', 'frozenset', 'sorted', 'len', 'dict', 'enumerate', 'any', 'all', 'sum', 'min', 'max', 'iter', 'reversed', 'zip', 'map', 'filter', 'bool',
+                  'repr', 'str')
+
+
+def _constant_display(p, m, node) -> bool:
+    """the module-level statement binds a NON-EMPTY list / set / dict display every element (key, value) of which folds to an immutable
+    constant.  (An empty container is a cache waiting to be filled, not a table.)"""
+    v = node.value if isinstance(node, (ast.Assign, ast.AnnAssign)) else node
+    if isinstance(v, (ast.List, ast.Set)):
+        elts = list(v.elts)
+    elif isinstance(v, ast.Dict):
+        if any(k is None for k in v.keys):
+            return False
+        elts = list(v.keys) + list(v.values)
+    else:
+        return False
+    if not elts or any(isinstance(e, ast.Starred) for e in elts):
+        return False
+    for e in elts:
+        x = p.fold(m, e)
+        if not isinstance(x, _IMMUTABLE_ELEMENT):
+            return False
+        if isinstance(x, tuple) and not all(isinstance(y, _IMMUTABLE_ELEMENT) and not isinstance(y, tuple) for y in x):
+            return False
+    return True
+
+
+def _escaping_use(p, q: str, m):
+    """(where, node) of the first use of the module-level object q that is not a plain read of its contents; None when every use is one of:
+    ``list(X)`` and the other copying / reducing builtins, ``X.copy()`` / ``.get`` / ``.keys`` / ``.values`` / ``.items`` / ``.index`` /
+    ``.count``, ``sep.join(X)``, ``X[...]`` (load), ``a in X``, comparison, ``for .. in X``, ``[*X]`` / ``{**X}``, ``X + y`` / ``X | y``,
+    a truth test.  Looked for in every function of the package and in the top-level / class-level code of every module."""
+    name = q.rsplit('.', 1)[1]
+    by_def = {id(g.node): g for g in p.all_functions()}
+    for mn, m2 in sorted(p.modules.items()):
+        if not any((isinstance(n, ast.Name) and n.id == name) or (isinstance(n, ast.Attribute) and n.attr == name) or (isinstance(n, ast.alias) and n.name == name)
+                   for n in ast.walk(m2.tree)):
+            continue
+        par: Dict[int, ast.AST] = {}
+        for n in ast.walk(m2.tree):
+            for ch in ast.iter_child_nodes(n):
+                par[id(ch)] = n
+        for n in ast.walk(m2.tree):
+            if not isinstance(n, (ast.Name, ast.Attribute)) or not isinstance(getattr(n, 'ctx', None), ast.Load):
+                continue
+            if isinstance(n, ast.Name) and n.id != name and n.id not in m2.imports:
+                continue
+            if isinstance(n, ast.Attribute) and n.attr != name:
+                continue
+            up = par.get(id(n))
+            g = None
+            while up is not None:
+                if id(up) in by_def:
+                    g = by_def[id(up)]
+                    break
+                up = par.get(id(up))
+            r = p.resolve_expr(m2, n, g)
+            if r is None or p.canonical(r) != q:
+                continue
+            up = par.get(id(n))
+            where = g.qual if g is not None else m2.name
+            ok = False
+            if isinstance(up, ast.Call) and n in up.args and isinstance(up.func, ast.Name) and up.func.id in _COPYING_CALLS:
+                ok = True
+            elif isinstance(up, ast.Call) and n in up.args and isinstance(up.func, ast.Attribute) and up.func.attr == 'join':
+                ok = True
+            elif isinstance(up, ast.Attribute) and up.value is n and isinstance(par.get(id(up)), ast.Call) and par[id(up)].func is up \
+                    and up.attr in ('copy', 'get', 'keys', 'values', 'items', 'index', 'count', '__contains__', '__len__'):
+                ok = True
+            elif isinstance(up, ast.Subscript) and up.value is n and isinstance(up.ctx, ast.Load):
+                ok = True
+            elif isinstance(up, ast.Compare):
+                ok = True
+            elif isinstance(up, (ast.For, ast.AsyncFor, ast.comprehension)) and up.iter is n:
+                ok = True
+            elif isinstance(up, ast.Starred) and isinstance(par.get(id(up)), (ast.List, ast.Tuple, ast.Set)):
+                ok = True
+            elif isinstance(up, ast.Dict) and any(k is None and v is n for k, v in zip(up.keys, up.values)):
+                ok = True
+            elif isinstance(up, ast.BinOp) and isinstance(up.op, (ast.Add, ast.BitOr, ast.BitAnd, ast.Sub, ast.Mult)):
+                ok = True
+            elif isinstance(up, (ast.If, ast.While, ast.IfExp)) and up.test is n:
+                ok = True
+            elif isinstance(up, ast.UnaryOp) and isinstance(up.op, ast.Not):
+                ok = True
+            elif isinstance(up, ast.BoolOp) and isinstance(par.get(id(up)), (ast.If, ast.While)):
+                ok = True
+            if not ok and g is not None and isinstance(up, (ast.Assign, ast.AnnAssign)) and up.value is n:
+                # bound to a local: mutated through that local -> a writer; only read through it -> fine
+                tg = up.targets if isinstance(up, ast.Assign) else [up.target]
+                if len(tg) == 1 and isinstance(tg[0], ast.Name) and _name_stores(g, tg[0].id) == 1 and tg[0].id not in g.params():
+                    loc_ = tg[0].id
+                    if any(root == loc_ for root, _first, _n in _mutations(walk_self(g.node))) \
+                            or any(isinstance(x, ast.AugAssign) and isinstance(x.target, ast.Name) and x.target.id == loc_ for x in walk_self(g.node)):
+                        return where, up, 'write'
+            if not ok:
+                return where, up if up is not None else n, 'escape'
+    return None
+
+
+def _ctor_only_methods(p, cq: str) -> Set[str]:
+    """quals of the private methods of the class cq (and its bases) that run only as part of construction: every mention of the method name
+    anywhere in the package is a call ``self.<name>(...)`` made inside ``__init__`` / ``__new__`` of a class, or inside another such method
+    (fixpoint).  A method that is also mentioned elsewhere - called on another receiver, passed around, called from an ordinary method - is
+    not constructor-only."""
+    cands: Dict[str, Func] = {}
+    for k in p.mro(cq):
+        c = p.classes.get(k)
+        if c is None:
+            continue
+        for nm, mth in c.methods.items():
+            if nm.startswith('_') and not nm.startswith('__') and not mth.is_property() and not mth.decorators:
+                cands.setdefault(nm, mth)
+    if not cands:
+        return set()
+    mentions: Dict[str, List[Tuple[Func, bool]]] = {nm: [] for nm in cands}    # name -> [(function, is a self-call)]
+    for g in p.all_functions():
+        par = None
+        for x in walk_self(g.node):
+            if isinstance(x, ast.Attribute) and x.attr in cands:
+                if par is None:
+                    par = {}
+                    for n in walk_self(g.node):
+                        for ch in ast.iter_child_nodes(n):
+                            par[id(ch)] = n
+                up = par.get(id(x))
+                is_call = isinstance(up, ast.Call) and up.func is x and isinstance(x.value, ast.Name) and x.value.id == 'self' and g.cls is not None
+                mentions[x.attr].append((g, is_call))
+            elif isinstance(x, ast.Constant) and isinstance(x.value, str) and x.value in cands:
+                mentions[x.value].append((g, False))      # getattr(self, '<name>') and the like
+    ok = set(cands)
+    changed = True
+    while changed:
+        changed = False
+        for nm in sorted(ok):
+            for g, is_call in mentions[nm]:
+                in_ctor = g.cls is not None and g.parent is None and (g.name in ('__init__', '__new__') or (g.name in ok and cands[g.name].qual == g.qual))
+                if not (is_call and in_ctor):
+                    ok.discard(nm)
+                    changed = True
+                    break
+    return {cands[nm].qual for nm in ok if mentions[nm]}
+
+
 def r3_inventory(run):
     p = run.project
     found: Dict[str, Tuple[str, object, ast.AST]] = {}   # qual -> (kind, owner(Func|Module|Class), node)
@@ -1352,6 +1649,15 @@ def r3_inventory(run):
     inventory = set(found)
     stale_owners = {q.rsplit('.', 1)[0] for q in set(R3_ALLOWED) - set(found)}
     memo_ok = {q for q, (k, _r) in R3_ALLOWED.items() if k.startswith('memo') or k == 'const'}
+    # un-reviewed module-level displays of immutable constants: 'ok' (never written, never handed on) | (where, node) of an escaping use
+    tables: Dict[str, object] = {}
+    for q, (kind, owner, node) in sorted(found.items()):
+        if q not in R3_ALLOWED and not isinstance(owner, (Func, Class)) and _constant_display(p, owner, node) and not _writers_of_symbol(p, q) \
+                and not any(_declares_global(g_, q.rsplit('.', 1)[1]) for g_ in owner.all_funcs):
+            st = _escaping_use(p, q, owner) or 'ok'
+            if st == 'ok' or st[2] != 'write':      # written through a local alias: an ordinary shared mutable object (reported below)
+                tables[q] = st
+    memo_ok |= {q for q, st in tables.items() if st == 'ok'}
     for q, (kind, owner, node) in sorted(found.items()):
         where_f = owner if isinstance(owner, Func) else None
         loc = owner.loc(node) if isinstance(owner, (Func, Class)) else '%s:%s' % (owner.relpath, getattr(node, 'lineno', 0))
@@ -1368,6 +1674,16 @@ def r3_inventory(run):
         if rule is None and q.rsplit('.', 1)[0] in stale_owners:
             # an allow-listed object of the same owner vanished: this is most likely that object under a new name
             raise AnchorError('allow-listed shared object in %s was renamed (now %s?); the allow-list must be updated by hand' % (q.rsplit('.', 1)[0], q))
+        if rule is None and q in tables:
+            # a module-level display of immutable constants nobody reviewed yet (a hoisted literal table): acceptable iff no function writes
+            # it and every use is a read that cannot hand the object itself to anyone (copy, iteration, membership, subscript, len, ...)
+            esc = tables[q]
+            if esc != 'ok':
+                raise UnknownIdiom('module-level table %s is never written, but %s hands the object itself on (%s); whether it is mutated there is '
+                                   'not decided' % (q, esc[0], short(esc[1], 60)))
+            run.ok('%s (not on the allow-list) is a display of immutable constants, never written and only read through copies / iteration / '
+                   'membership / subscripts' % q, loc, q)
+            continue
         if rule is None:
             run.fail('shared mutable object %s (%s) is not on the reasoned allow-list' % (q, kind), where_f if where_f is not None else q.rsplit('.', 1)[0],
                      '%s: %s' % (q.rsplit('.', 1)[1], short(node, 100)), where=loc,
@@ -1420,12 +1736,13 @@ def r3_inventory(run):
                 raise UnknownIdiom('class of %s' % q)
             if cat == 'instance':
                 bad = []
+                ctor_only = _ctor_only_methods(p, cq)
                 for k in p.mro(cq):
                     c = p.classes.get(k)
                     if c is None:
                         continue
                     for nm, mth in c.methods.items():
-                        if nm in ('__init__', '__new__'):
+                        if nm in ('__init__', '__new__') or mth.qual in ctor_only:
                             continue
                         for a, n in self_writes(mth):
                             bad.append((mth, n))
@@ -1603,10 +1920,31 @@ def r4_fresh_per_call(run):
     tab_idx = {i for i, _t in rm.tables}
     cand = [(i, a) for i, a in enumerate(rm.find_args) if i not in tab_idx and isinstance(a, ast.Name)]
     fresh = []
+
+    def fresh_dict(h: Func, e, depth=0) -> bool:
+        """e evaluates to a NEW empty dict on every evaluation: ``{}``, ``dict()``, or a call of a resolved, un-memoised plain function
+        every return of which is such an expression (``params = _new_params()``), a local bound once to one included"""
+        if isinstance(e, ast.Dict):
+            return not e.keys
+        if isinstance(e, ast.Name) and depth > 0:
+            d = _single_def(h, e.id)
+            return d is not None and not isinstance(d.value, ast.Name) and fresh_dict(h, d.value, depth)
+        if not isinstance(e, ast.Call):
+            return False
+        if isinstance(e.func, ast.Name) and e.func.id == 'dict' and not e.args and not e.keywords and p.resolve_expr(h.module, e.func, h) in (None, 'builtins.dict'):
+            return True
+        if depth >= 3:
+            return False
+        t = p.callee(h, e)
+        if not isinstance(t, Func) or t.is_async or _lru_decorated(p, t) or t.decorators and not all(d in ('staticmethod',) for d in t.decorators) \
+                or any(isinstance(x, (ast.Yield, ast.YieldFrom)) for x in walk_self(t.node)):
+            return False
+        rets = [r for r in walk_self(t.node) if isinstance(r, ast.Return)]
+        return bool(rets) and all(r.value is not None and fresh_dict(t, r.value, depth + 1) for r in rets)
+
     for i, a in cand:
         defs = _fresh_def(f, a.id)
-        if len(defs) == 1 and ((isinstance(defs[0], ast.Dict) and not defs[0].keys) or
-                               (isinstance(defs[0], ast.Call) and isinstance(defs[0].func, ast.Name) and defs[0].func.id == 'dict' and not defs[0].args)):
+        if len(defs) == 1 and fresh_dict(f, defs[0]):
             fresh.append((i, a.id))
     run.check(len(fresh) == 1, 'find(): the params dict handed to the finder is created inside the call', f, rm.find_call,
               runtime_witness='two concurrent requests share one params dict and see each other\'s path fields')
@@ -1753,46 +2091,104 @@ def r6_tables_rebound(run):
     the old list objects alone; emptying or reordering a table in place
     (clear(), del t[:], t[:] = ..., pop/insert/sort) pulls the entries from
     under an in-flight finder: it returns another route's resource or fails
-    with IndexError."""
+    with IndexError.
+
+    Read in every method of the router AND in every module-level function a method hands `self` to (``_reset_tables(self)``; the
+    parameter that receives the router plays the part of `self`).  A table reached through a local bound once to it
+    (``t = self._patterns; t.clear()``) is the table; ``self.a, self.b = [], []`` binds pairwise; ``self.t = name`` with the local
+    bound once to a fresh list publishes that fresh list."""
     p = run.project
     rm = RouterModel(p)
     tables = [t for _i, t in rm.tables]
     fresh_binds = {t: [] for t in tables}
-    for f in rm.cls.methods.values():
+    # (function, receiver name, reached from a method other than __init__)
+    scopes: Dict[Tuple[str, str], list] = {}
+
+    def visit(fn, recv, outside, depth=0):
+        key = (fn.qual, recv)
+        ent = scopes.get(key)
+        if ent is not None and (ent[2] or not outside):
+            return
+        if ent is None:
+            scopes[key] = [fn, recv, outside]
+        else:
+            ent[2] = True
+        if depth > 8:
+            return
+        for g in [fn] + list(fn.nested.values()):
+            for c in walk_self(g.node):
+                if isinstance(c, ast.Call):
+                    h, q = rm.handed_self(g, c, recv=recv)
+                    if h is not None:
+                        visit(h, q, outside, depth + 1)
+
+    for m in rm.cls.methods.values():
+        ps = m.params()
+        if ps and not any(d in ('staticmethod', 'classmethod') for d in m.decorators):
+            visit(m, ps[0], m.name != '__init__')
+
+    def fresh(fn, v):
+        if isinstance(v, ast.List) and not v.elts:
+            return True
+        if isinstance(v, ast.Call) and isinstance(v.func, ast.Name) and v.func.id == 'list' and not v.args and not v.keywords:
+            return True
+        if isinstance(v, ast.Name):
+            d = _single_def(fn, v.id)
+            return d is not None and fresh(fn, d.value) and not isinstance(d.value, ast.Name)
+        return False
+
+    for f, recv, outside_init in scopes.values():
         hit = False
+
+        def table_of(e):
+            """table attribute denoted by e: ``<recv>.<table>`` or a local bound once to it"""
+            if isinstance(e, ast.Attribute) and isinstance(e.value, ast.Name) and e.value.id == recv and e.attr in tables:
+                return e.attr
+            if isinstance(e, ast.Name):
+                d = _single_def(f, e.id)
+                if d is not None and isinstance(d.value, ast.Attribute) and isinstance(d.value.value, ast.Name) and d.value.value.id == recv \
+                        and d.value.attr in tables:
+                    return d.value.attr
+            return None
+
         for x in walk_self(f.node):
-            if isinstance(x, ast.Call) and isinstance(x.func, ast.Attribute) and _self_attr(x.func.value) and x.func.value.attr in tables:
+            if isinstance(x, ast.Call) and isinstance(x.func, ast.Attribute) and table_of(x.func.value) is not None:
                 hit = True
                 if x.func.attr in _IN_PLACE_RESET:
                     run.fail('%s changes the published table self.%s in place (%s): a lookup in flight on another thread reads the same list object'
-                             % (f.name, x.func.value.attr, x.func.attr), f, x,
+                             % (f.name, table_of(x.func.value), x.func.attr), f, x,
                              runtime_witness="thread A is inside the finder for '/items/7' while thread B adds '/items' and recompiles: A answers "
                                              "with the wrong resource or raises IndexError")
             elif isinstance(x, ast.Delete):
                 for t in x.targets:
-                    if isinstance(t, ast.Subscript) and _self_attr(t.value) and t.value.attr in tables:
+                    if isinstance(t, ast.Subscript) and table_of(t.value) is not None:
                         hit = True
-                        run.fail('%s deletes entries of the published table self.%s in place' % (f.name, t.value.attr), f, x)
+                        run.fail('%s deletes entries of the published table self.%s in place' % (f.name, table_of(t.value)), f, x)
             elif isinstance(x, (ast.Assign, ast.AugAssign, ast.AnnAssign)):
                 tg = x.targets if isinstance(x, ast.Assign) else [x.target]
+                v = getattr(x, 'value', None)
                 flat = []
                 for t in tg:
-                    flat += list(t.elts) if isinstance(t, (ast.Tuple, ast.List)) else [t]
-                for t in flat:
-                    if isinstance(t, ast.Subscript) and _self_attr(t.value) and t.value.attr in tables:
+                    if isinstance(t, (ast.Tuple, ast.List)):
+                        if isinstance(v, (ast.Tuple, ast.List)) and len(v.elts) == len(t.elts) and not any(isinstance(e, ast.Starred) for e in list(t.elts) + list(v.elts)):
+                            flat += list(zip(t.elts, v.elts))
+                        else:
+                            flat += [(e, None) for e in t.elts]
+                    else:
+                        flat.append((t, v))
+                for t, tv in flat:
+                    if isinstance(t, ast.Subscript) and table_of(t.value) is not None:
                         hit = True
-                        run.fail('%s overwrites entries of the published table self.%s in place' % (f.name, t.value.attr), f, x)
-                    elif _self_attr(t) and t.attr in tables:
+                        run.fail('%s overwrites entries of the published table self.%s in place' % (f.name, table_of(t.value)), f, x)
+                    elif isinstance(t, ast.Attribute) and table_of(t) is not None:
                         hit = True
-                        v = getattr(x, 'value', None)
-                        is_fresh = isinstance(x, (ast.Assign, ast.AnnAssign)) and (
-                            (isinstance(v, ast.List) and not v.elts) or (isinstance(v, ast.Call) and isinstance(v.func, ast.Name) and v.func.id == 'list' and not v.args))
                         if isinstance(x, ast.AugAssign):
                             run.fail('%s extends the published table self.%s in place of rebinding it' % (f.name, t.attr), f, x)
-                        elif is_fresh:
-                            fresh_binds[t.attr].append((f, x))
+                        elif tv is not None and fresh(f, tv):
+                            if outside_init:
+                                fresh_binds[t.attr].append((f, x))
                         else:
-                            raise UnknownIdiom('%s: table self.%s bound to %s' % (f.qual, t.attr, short(v)))
+                            raise UnknownIdiom('%s: table self.%s bound to %s' % (f.qual, t.attr, short(tv if tv is not None else v)))
         if hit:
             run.use(f)
     for t in tables:
@@ -1800,7 +2196,6 @@ def r6_tables_rebound(run):
         run.check(bool(outside_init), 'the (re)compile routine publishes a fresh list for the table self.%s' % t,
                   rm.stub, 'self.%s = []' % t, where=(outside_init[0][0].loc(outside_init[0][1]) if outside_init else rm.stub.loc()),
                   runtime_witness='a recompile refills the list object that a lookup in flight is indexing')
-
 
 
 # ---------------------------------------------------------------------------
@@ -2049,12 +2444,13 @@ def _abs_value(e, env):
     return _UNK
 
 
-def _bindings_at_exit(p, g: Func, name: Optional[str], env0: Dict[str, object]) -> List[Tuple[Optional[ast.AST], Dict[str, object]]]:
+def _bindings_at_exit(p, g: Func, name: Optional[str], env0: Dict[str, object], returns: bool = False) -> List[Tuple[Optional[ast.AST], Dict[str, object]]]:
     """[(value expression last bound to the local `name` (None: unbound), environment at the exit)] over every path of g from its entry
     to its normal exit that is feasible when the names of env0 have the given values.  The environment follows the locals: a name
     assigned a determined value (constant, comparison / not / and / or / conditional over determined names) joins it, a name bound to
     anything else leaves it.  Tests determined by the environment select one branch; other tests fork.  A binding of `name` that is not
-    a plain assignment is UnknownIdiom."""
+    a plain assignment is UnknownIdiom.
+    returns=True: [(returned expression (None: `return` / falling off the end), environment there)] over the feasible paths instead."""
     cfg = cfg_of(g, p)
     out = []
     seen = set()
@@ -2074,7 +2470,10 @@ def _bindings_at_exit(p, g: Func, name: Optional[str], env0: Dict[str, object]) 
         b0 = b
         node = cfg.nodes[nid]
         if nid == cfg.exit:
-            out.append((binds.get(b), env))
+            out.append((None, env) if returns else (binds.get(b), env))
+            continue
+        if returns and node.kind == 'stmt' and isinstance(node.ast, ast.Return):
+            out.append((node.ast.value, env))
             continue
         allowed = None
 
@@ -2246,6 +2645,16 @@ def r8_serial_executor(run):
         for c in walk_self(g.node):
             if isinstance(c, ast.Call) and isinstance(c.func, ast.Attribute) and c.func.attr == 'run_in_executor':
                 sites.append((g, c))
+    env0 = {SYNC_WRAP_FLAG: False}
+    if len(sites) > 1 and not any(g_ is fac for g_, _c in sites):
+        # several coroutine functions: the one the factory RETURNS for threadsafe=False is the one examined
+        names = set()
+        for v_, _e in _bindings_at_exit(p, fac, None, env0, returns=True):
+            if not isinstance(v_, ast.Name) or _rebinds(fac, v_.id) or v_.id not in fac.nested or (v_.id + '#2') in fac.nested:
+                raise UnknownIdiom('%s: for threadsafe=False the factory returns %s, not one of its own coroutine functions defined once'
+                                   % (SYNC_WRAP, short(v_) if v_ is not None else 'None'))
+            names.add(v_.id)
+        sites = [(g_, c_) for g_, c_ in sites if any(g_ is fac.nested[nm] for nm in names)]
     g, call = single(sites, 'run_in_executor(...) call', SYNC_WRAP)
     if g is fac:
         raise UnknownIdiom('%s submits to the executor itself (not from the returned coroutine function)' % SYNC_WRAP)
@@ -2289,6 +2698,25 @@ def r8_serial_executor(run):
                 if ctor is not None:
                     run.use(t)
                     return [('memo', t, ctor)]
+            if isinstance(t, Func) and t.parent is None and t.cls is None and not t.is_async and t is not fac and (e.args or e.keywords) \
+                    and not any(isinstance(x, (ast.Yield, ast.YieldFrom)) for x in walk_self(t.node)):
+                # a module-level selector handed determined values (``_pick_executor(threadsafe)``): its returns over the paths that are
+                # feasible for those values
+                binding = _bind_params(t, e)
+                env_t: Dict[str, object] = {}
+                a_ = t.node.args
+                pos_ = [x.arg for x in a_.posonlyargs + a_.args]
+                dflt = dict(zip(pos_[len(pos_) - len(a_.defaults):], a_.defaults)) if a_.defaults else {}
+                dflt.update({x.arg: d for x, d in zip(a_.kwonlyargs, a_.kw_defaults) if d is not None})
+                for pn, ae in binding.items():
+                    v_ = _abs_value(ae, env) if ae is not None else (_abs_value(dflt[pn], {}) if pn in dflt else _UNK)
+                    if v_ is not _UNK:
+                        env_t[pn] = v_
+                run.use(t)
+                out = []
+                for v_, env2 in _bindings_at_exit(p, t, None, env_t, returns=True):
+                    out += evaluate(t, v_ if v_ is not None else ast.Constant(None), env2, depth + 1)
+                return out
             raise UnknownIdiom('%s: the executor is the result of %s, which is not understood' % (h.qual, short(e)))
         if isinstance(e, ast.Name):
             # a local of h, a local of an enclosing function (closure: the value bound when that function returns), a module-level name
@@ -2332,7 +2760,6 @@ def r8_serial_executor(run):
             raise UnknownIdiom('%s: module-level %s is None at import time and filled in later' % (h.qual, q))
         raise UnknownIdiom('%s: module-level %s = %s' % (h.qual, q, short(v)))
 
-    env0 = {SYNC_WRAP_FLAG: False}
     _envs: Dict[str, Dict[str, object]] = {}
 
     def scope_env(k: Func) -> Dict[str, object]:
